@@ -392,6 +392,7 @@ type exec struct {
 	log        []string
 	scopes     int
 	labels     int
+	evalDepth  int
 	chanLen    int
 }
 
@@ -509,6 +510,7 @@ func (s *session) run(inj injection, sentinel error, stepCap int) *exec {
 	e.final = snapshot(vm)
 	e.log = append([]string(nil), h.log...)
 	e.scopes, e.labels = otto.VerifRestState(vm)
+	e.evalDepth = otto.VerifEvalDepth(vm)
 	if vm.Interrupt != nil {
 		e.chanLen = len(vm.Interrupt)
 	}
@@ -516,10 +518,29 @@ func (s *session) run(inj injection, sentinel error, stepCap int) *exec {
 }
 
 func (e *exec) rest() string {
-	return fmt.Sprintf("scopes=%d labels=%d interrupt_chan=%d", e.scopes, e.labels, e.chanLen)
+	return fmt.Sprintf("scopes=%d labels=%d interrupt_chan=%d", e.scopes, e.labels, e.chanLen) + evalLeak(e.evalDepth)
 }
 
 const restClean = "scopes=0 labels=0 interrupt_chan=0"
+
+// evalLeak renders the runtime's count of direct evals in progress when it is
+// not 0 (at rest it must be: VerifEvalDepth, hook added for this check).
+func evalLeak(n int) string {
+	if n == 0 {
+		return ""
+	}
+	return fmt.Sprintf(" active_direct_evals=%d", n)
+}
+
+// restSuffix is the non-clean part of a rest-state report ("" when at rest).
+func restSuffix(vm *otto.Otto) string {
+	sc, lb := otto.VerifRestState(vm)
+	ev := otto.VerifEvalDepth(vm)
+	if sc == 0 && lb == 0 && ev == 0 {
+		return ""
+	}
+	return fmt.Sprintf(" [rest scopes=%d labels=%d%s]", sc, lb, evalLeak(ev))
+}
 
 func (e *exec) delivery(runGID int64) string {
 	if len(e.delivered) == 0 {
@@ -557,7 +578,33 @@ const followUpSrc = `(function(){
   return out.join(",");
 })()`
 
-const followUpExpected = "ok:s:120,0,10,fin,x,101,102,a,w,global,undefined,undefined,123,2,function,cb,true,b"
+const followUpExpected = "ok:s:120,0,10,fin,x,101,102,a,w,global,undefined,undefined,123,2,function,cb,true,b" + "; " + headroomExpected
+
+// headroomSrc measures, in one Run under SetStackDepthLimit(headroomLimit), how
+// deep plain calls and direct evals can still nest before the RangeError. The
+// usable depth must not depend on the runtime's history: with limit 8 the IIFE
+// sits at index 1, rec number i at 1+i (i <= 6), and ev number i at 1+i whose
+// eval is checked against (1+i) + i active evals (i <= 3, ev number 4 still enters).
+const headroomSrc = `(function(){ var n = 0, m = 0; function rec(){ n++; rec(); } try { rec(); } catch (e) { if (!(e instanceof RangeError)) n = "?" + e; } ` +
+	`function ev(){ m++; eval("ev()"); } try { ev(); } catch (e) { if (!(e instanceof RangeError)) m = "?" + e; } return n + "/" + m; })()`
+
+const headroomLimit = 8
+const headroomExpected = "headroom(limit 8)=ok:s:6/4"
+
+// headroom runs the probe under headroomLimit and puts the limit back to restore.
+func headroom(vm *otto.Otto, restore int) string {
+	vm.SetStackDepthLimit(headroomLimit)
+	otto.VerifSetStepHook(vm, func(n int) {
+		if n > termCap {
+			runtime.Goexit()
+		}
+	})
+	out := guarded(func() (otto.Value, error) { return vm.Run(headroomScript) })
+	otto.VerifSetStepHook(vm, nil)
+	vm.SetStackDepthLimit(restore)
+	res := fmt.Sprintf("headroom(limit %d)=%s", headroomLimit, out.outcome(nil))
+	return res + restSuffix(vm)
+}
 
 // followUp runs the follow-up program and reports its outcome plus the rest
 // state and whether it changed any tracked global.
@@ -573,14 +620,12 @@ func (s *session) followUp(before string) string {
 	out := guarded(func() (otto.Value, error) { return vm.Run(followUpScript) })
 	otto.VerifSetStepHook(vm, nil)
 	res := out.outcome(nil)
-	sc, lb := otto.VerifRestState(vm)
-	if sc != 0 || lb != 0 {
-		res += fmt.Sprintf(" [rest scopes=%d labels=%d]", sc, lb)
-	}
+	res += restSuffix(vm)
 	if after := snapshot(vm); after != before {
 		res += " [tracked globals changed: " + after + "]"
 	}
-	return res
+	// limit headroom after the history == limit headroom on a fresh runtime
+	return res + "; " + headroom(vm, s.p.limit)
 }
 
 // reset puts the tracked globals back so that P can be run a second time.
@@ -602,6 +647,7 @@ func compile(src string) *otto.Script {
 
 var (
 	followUpScript = compile(followUpSrc)
+	headroomScript = compile(headroomSrc)
 	resetScript    = compile(resetSrc)
 	preludeScript  = compile(preludeSrc)
 )
